@@ -778,6 +778,62 @@ def r12_6(rep):
                f"{[render(c)[:70] for c in cs]} (file buffers {outs})", fin.loc(cs[0]) if cs else fin.loc())
 
 
+# ============================================================================ R12.7 one definition per C type name
+def r12_7(rep):
+    """World-level anonymous types (`<world>_list_string_t`, named from their structure only) are emitted by
+    define_live_types when first met.  A second emission (typedef + `*_free` redefinition) happens when the same TypeId is
+    met again after `type_names` forgot it and the `already emitted` decision compares TypeIds.  Accepted shapes:
+    (a) every removal from `type_names` keeps the types `is_prim_type_id` holds for, or
+    (b) define_live_types decides `already emitted` from the name alone (no TypeId comparison)."""
+    fns = [x for x in synq.all_fns(REL) if x.body is not None]
+    REMOVE = ("retain", "remove", "clear", "drain", "remove_entry", "extract_if", "take")
+    sites = []
+    for fn in fns:
+        for mc in synq.method_calls(fn.body, REMOVE):
+            if render(mc["recv"]).endswith(".type_names"):
+                sites.append((fn, mc))
+    rep.floor("R12.7", "removals from `type_names` in crates/c", len(sites), 1)
+
+    def keeps_prims(fn, mc):
+        if mc["method"] != "retain" or not mc["args"] or mc["args"][0].get("k") != "closure":
+            return False, f"`{mc['method']}` forgets entries unconditionally"
+        body = mc["args"][0]["body"]
+        while body.get("k") == "block" and len(body["stmts"]) == 1 and body["stmts"][0].get("k") == "expr_stmt":
+            body = body["stmts"][0]["e"]
+        # `keep(k)` where `let keep = |k| ...` in the same function
+        if body.get("k") == "call" and body["func"].get("k") == "path":
+            for nm, init, st in synq.bindings(fn.body):
+                if nm == body["func"]["path"] and init is not None and init.get("k") == "closure":
+                    body = init["body"]
+        disj = []
+
+        def split(c):
+            if c.get("k") == "binary" and c["op"] == "||":
+                split(c["l"])
+                split(c["r"])
+            else:
+                disj.append(c)
+        split(body)
+        hit = [d for d in disj if d.get("k") == "call" and d["func"].get("k") == "path" and
+               synq.short(d["func"]["path"]) == "is_prim_type_id" and len(d["args"]) == 2]
+        return bool(hit), " || ".join(render(d) for d in disj)
+    res = [(fn, mc) + keeps_prims(fn, mc) for fn, mc in sites]
+    form_a = bool(res) and all(ok for _, _, ok, _ in res)
+    f = synq.find_fn(REL, "define_live_types")
+    rep.saw(f"{REL}::define_live_types")
+    by_id = [n for n in synq.walk(f.body) if n.get("k") == "binary" and n["op"] in ("==", "!=") and
+             "ty" in (render(n["l"]).lstrip("*&"), render(n["r"]).lstrip("*&"))]
+    uses_names = any(render(mc["recv"]).endswith("prim_names") for mc in synq.method_calls(f.body))
+    form_b = uses_names and not by_id
+    rep.ob("R12.7", "a world-level anonymous C type is defined once: every removal from `type_names` keeps the types "
+           "is_prim_type_id holds for, or define_live_types decides `already emitted` from the name alone",
+           form_a or form_b,
+           "; ".join(f"{fn.name}: type_names.{mc['method']}({d})" for fn, mc, ok, d in res if not ok) +
+           (f"; and define_live_types compares TypeIds (`{render(by_id[0])}`): a type met again after it was forgotten is "
+            "emitted a second time (typedef redefinition, redefinition of its *_free helper)" if by_id else ""),
+           sites[0][0].loc(sites[0][1]) if sites else f.loc())
+
+
 def run(rep, tier):
     rep.describe(
         "other",
@@ -797,7 +853,8 @@ def run(rep, tier):
         "on the linking symbol, world id, resolve, string encoding, and the section name starts with the prefix "
         "wit-component's metadata::decode searches for. (R12.6) every declaration / use site of a user-named member or "
         "parameter calls to_c_ident (no direct snake-casing), Source::append carries every section over and finish() "
-        "writes every section into the header resp. the C file. NOT decided: that clang / wasm-ld / the encoder accept the "
+        "writes every section into the header resp. the C file. (R12.7) a world-level anonymous type is defined once: `type_names` "
+        "never forgets a type `is_prim_type_id` holds for, or `already emitted` is decided by name. NOT decided: that clang / wasm-ld / the encoder accept the "
         "output, type-name collisions between interfaces (`a:b/c-d` vs `a:b-c/d`), collisions of a user name with the "
         "fixed `result` / `arg` / `args` parameters of async imports, macro names of headers the user includes.",
         trusted_base=["syn parse of crates/c", "C17 keyword list transcribed from ISO/IEC 9899:2018 §6.4.1",
@@ -811,6 +868,7 @@ def run(rep, tier):
     rep.rule("R12.4", "typedef names used inside wrapper bodies cannot be parameter names")
     rep.rule("R12.5", "the C source and the component-type object describe the same world and link together")
     rep.rule("R12.6", "user-named members are renamed consistently; every generated section reaches its output file")
+    rep.rule("R12.7", "a world-level anonymous C type (and its free helper) is defined once even when its TypeId is met from imports and exports")
     rep.saw(file=REL)
     holder = {}
 
@@ -832,3 +890,4 @@ def run(rep, tier):
         rep.guard("R12.4", "typedef names", lambda: r12_4(rep, ci))
     rep.guard("R12.5", "component-type object", lambda: r12_5(rep))
     rep.guard("R12.6", "renaming sites and output sections", lambda: r12_6(rep))
+    rep.guard("R12.7", "one definition per C type name", lambda: r12_7(rep))
